@@ -19,10 +19,15 @@ pub(crate) fn read_hmac_block_stream(
     let mut block_index: u64 = 0;
 
     while pos < data.len() {
-        let hmac = &data[pos..(pos + 32)];
-        let size_bytes = &data[(pos + 32)..(pos + 36)];
+        // a stream that ends inside a block cannot be verified
+        let truncated = || BlockStreamError::BlockHashMismatch { block_index };
+        let hmac = data.get(pos..(pos + 32)).ok_or_else(truncated)?;
+        let size_bytes = data.get((pos + 32)..(pos + 36)).ok_or_else(truncated)?;
         let size = LittleEndian::read_u32(size_bytes) as usize;
-        let block = &data[(pos + 36)..(pos + 36 + size)];
+        let block = (pos + 36)
+            .checked_add(size)
+            .and_then(|end| data.get((pos + 36)..end))
+            .ok_or_else(truncated)?;
 
         // verify block hmac
         let hmac_block_key = get_hmac_block_key(block_index, key)?;
